@@ -272,18 +272,37 @@ def _draw_weighted(draw, n, mode):
     return edges
 
 
-def _draw_target(draw, n, source):
-    tmode = draw(st.sampled_from(["none", "none", "source", "node", "node", "node"]))
+def _draw_n(draw, tier):
+    return draw(st.one_of(st.integers(2, _nmax(tier)), st.integers(1, _nmax(tier))))
+
+
+def _draw_target(draw, n, source, edges):
+    """None / the source / a node chosen among the reachable ones / among the unreachable ones / any node.
+    (Reachability is computed here so that both classes are produced by construction rather than by luck.)"""
+    tmode = draw(st.sampled_from(["none", "reachable", "unreachable", "source", "node", "reachable"]))
     if tmode == "none":
         return None
     if tmode == "source":
         return source
+    if tmode != "node":
+        adj = {}
+        for e in edges:
+            adj.setdefault(e[0], []).append(e[1])
+        seen, todo = {source}, [source]
+        while todo:
+            for v in adj.get(todo.pop(), []):
+                if v not in seen:
+                    seen.add(v)
+                    todo.append(v)
+        pool = sorted(seen - {source}) if tmode == "reachable" else [v for v in range(n) if v not in seen]
+        if pool:
+            return pool[draw(st.integers(0, len(pool) - 1))]
     return draw(st.integers(0, n - 1))
 
 
 @st.composite
 def fw_cases(draw, tier):
-    n = draw(st.integers(1, _nmax(tier)))
+    n = _draw_n(draw, tier)
     directed = draw(st.booleans())
     mode = draw(st.sampled_from(["nonneg", "nonneg", "potential", "potential", "fewneg", "free"] if directed else ["nonneg", "nonneg", "nonneg", "fewneg"]))
     return {"n": n, "directed": directed, "mode": mode, "edges": _draw_weighted(draw, n, mode)}
@@ -291,32 +310,32 @@ def fw_cases(draw, tier):
 
 @st.composite
 def bf_cases(draw, tier):
-    n = draw(st.integers(1, _nmax(tier)))
+    n = _draw_n(draw, tier)
     mode = draw(st.sampled_from(["nonneg", "potential", "potential", "fewneg", "free"]))
     edges = _draw_weighted(draw, n, mode)
     s = draw(st.integers(0, n - 1))
-    return {"n": n, "mode": mode, "edges": edges, "source": s, "target": _draw_target(draw, n, s)}
+    return {"n": n, "mode": mode, "edges": edges, "source": s, "target": _draw_target(draw, n, s, edges)}
 
 
 @st.composite
 def dj_cases(draw, tier):
-    n = draw(st.integers(1, _nmax(tier)))
+    n = _draw_n(draw, tier)
     edges = _draw_weighted(draw, n, "nonneg")
     s = draw(st.integers(0, n - 1))
-    return {"n": n, "edges": edges, "source": s, "target": _draw_target(draw, n, s)}
+    return {"n": n, "edges": edges, "source": s, "target": _draw_target(draw, n, s, edges)}
 
 
 @st.composite
 def trav_cases(draw, tier):
-    n = draw(st.integers(1, _nmax(tier)))
+    n = _draw_n(draw, tier)
     edges = _draw_pairs(draw, n)
     s = draw(st.integers(0, n - 1))
-    return {"n": n, "edges": edges, "source": s, "target": _draw_target(draw, n, s)}
+    return {"n": n, "edges": edges, "source": s, "target": _draw_target(draw, n, s, edges)}
 
 
 @st.composite
 def mst_cases(draw, tier):
-    n = draw(st.integers(1, _nmax(tier)))
+    n = _draw_n(draw, tier)
     family = draw(st.sampled_from(["sparse", "tree+extra", "tree+extra", "ties"]))
     if family == "tree+extra":
         perm = draw(st.permutations(range(n)))
@@ -336,7 +355,7 @@ def mst_cases(draw, tier):
 
 @st.composite
 def pr_cases(draw, tier):
-    n = draw(st.integers(1, _nmax(tier)))
+    n = _draw_n(draw, tier)
     edges = _draw_pairs(draw, n)
     return {
         "n": n,
@@ -344,13 +363,13 @@ def pr_cases(draw, tier):
         "damping": draw(st.sampled_from([0.25, 0.5, 0.85, 0.9])),
         "tol": draw(st.sampled_from([1e-3, 1e-6, 1e-8, 1e-10])),
         "max_iter": draw(st.sampled_from([1, 2, 3, 5, 10, 30, 100, 1000])),
-        "defaults": draw(st.integers(0, 7)),  # bit i set => keyword i is omitted (the default is used)
+        "defaults": draw(st.sampled_from([0, 0, 0, 0, 0, 1, 2, 4, 3, 7])),  # bit i set => keyword i is omitted (the default is used)
     }
 
 
 @st.composite
 def scc_cases(draw, tier):
-    n = draw(st.integers(1, _nmax(tier)))
+    n = _draw_n(draw, tier)
     family = draw(st.sampled_from(["uniform", "planted"]))
     if family == "uniform":
         pairs = _draw_pairs(draw, n)
@@ -372,7 +391,7 @@ def scc_cases(draw, tier):
 
 @st.composite
 def topo_cases(draw, tier):
-    n = draw(st.integers(1, _nmax(tier)))
+    n = _draw_n(draw, tier)
     family = draw(st.sampled_from(["dag", "dag", "dag+1", "uniform"]))
     if family == "uniform":
         pairs = _draw_pairs(draw, n, mmax=n)
@@ -459,6 +478,9 @@ def _single_source(fname, desc, ctx, res, d, weighted):
             if obj != c:
                 raise Violation(f"{fname}:objective-is-not-the-path-cost", {"backend": b, "path_cost": float(c), "results": _showall(res)})
             meanings[b] = (stt, c)
+            ctx.label(len(r.solution) >= 3 and "path-hops>=2")
+            if b != "python" and _status(res["python"]) == stt and r.solution != res["python"].solution:
+                ctx.label("backends-return-different-paths")
     return meanings
 
 
@@ -578,6 +600,8 @@ def run_dfs(desc, ctx):
             if c != lev[t]:
                 ctx.label("dfs-path-longer-than-shortest")
             meanings[b] = (stt, "a valid path")
+            if b != "python" and _status(res["python"]) == stt and r.solution != res["python"].solution:
+                ctx.label("backends-return-different-paths")
     _same_meaning(fname, res, meanings, ("visited-list",) if t is None else ("reachability",))
     stt, m = meanings["python"][:2]
     if t is None:
